@@ -49,6 +49,8 @@ CUSTOM_MENU = [
     ((3,), "clique", "homog"), ((3,), "clique", "per-edge"), ((1, 2), "star", "per-edge"), ((1, 2), "clique", "homog"),
     ((2, 2), "cycle", "per-edge"), ((2, 2), "diamond", "per-edge"), ((3,), "clique", "generator"), ((2, 1), "path", "iter"), ((4,), "cycle", "generator"), ((2, 2, 1), "chord", "per-edge"), ((1, 1, 1), "clique", "per-edge"),
     ((1, 1), "bare", "bare"), ((1, 3), "star", "homog"), ((4,), "clique", "homog"), ((2, 1), "path", "per-edge"),
+    # two vertices, exactly two wrapped edges (the library's cycle_motif on a size-2 slot gives that), one name per edge
+    ((2,), "double", "per-edge"), ((1, 1), "double", "per-edge"), ((2,), "double", "homog"),
 ]
 
 
